@@ -78,6 +78,11 @@ public:
                 first_channel_weights_.push_back(weight);
             }
         }
+        else
+        {
+            // the first weights are needed again after `rollback(0)`
+            first_channel_weights_ = this->results().front().channel_weights();
+        }
     }
 
     /// Returns the channel weights for the next iteration.
